@@ -13,7 +13,10 @@ One JSON object per input line, one JSON object per output line.
       -> {"edges":[[s,t],...],"ok":[...]} | {"edges":...,"cycle":[u,v]}
   {"op":"components","links":[...],"set_order":[...],"dests":[...]}
       -> {"ok":[dest,...],"schedule":[[dest,[link index,...]],...]} | {"cycle":[u,v]}
-  {"op":"flow","links":[{"sources":[[dest,attr|null],...],"target":k,"fn":name|null},...],"order":[...],"comps":[[dest,isClass],...]}
+  {"op":"flow","links":[{"sources":[[dest,attr|null],...],"target":k,"fn":name|null,
+                         "tdest":target_action.dest,"tsub":bool,"parent":{"single":[key,...]}|{"list":[[key,...]|null,...]}|{"gone":true}},...],
+               "order":[...],"comps":[[dest,isClass],...]}          (tdest/tsub/parent omitted = a class-group parameter)
+  {"op":"slots","links":[...as for flow...]} -> {"slots":[[position,...],...]}   `set_target_value`: positions written per link
       -> {"log":[[dest,[[key,val],...]],...],"ready":bool,"applied_end":[...]}      one instantiate_classes call on a parsed cfg;
          val = {"raw":s}|{"ns":dest}|{"obj":dest}|{"attr":[val,name]}|{"app":[fn,[val,...]]}   (compute_fn table = symbolic application)
 -/
@@ -63,6 +66,19 @@ partial def valToJson : Val → Json
   | .attr v a => Json.mkObj [("attr", Json.arr #[valToJson v, .str a])]
   | .app f args => Json.mkObj [("app", Json.arr #[.str f, .arr (args.map valToJson).toArray])]
 
+/-- {"single":[key,...]} | {"list":[[key,...]|null,...]} | anything else = gone -/
+def parentOf (p : Json) : Parent :=
+  match p.getObjVal? "single" with
+  | .ok (.arr _) => .single (strList p "single")
+  | _ =>
+    match p.getObjVal? "list" with
+    | .ok (.arr items) => .list (items.toList.map fun it => match it with
+      | .arr ks => some (ks.toList.filterMap fun k => match k with
+        | .str s => some s
+        | _ => none)
+      | _ => none)
+    | _ => .gone
+
 def flinkList (j : Json) : List FLink :=
   match j.getObjVal? "links" with
   | .ok (.arr xs) => xs.toList.map fun x =>
@@ -77,7 +93,16 @@ def flinkList (j : Json) : List FLink :=
         | _ => "",
       fn := match x.getObjVal? "fn" with
         | .ok (.str f) => some f
-        | _ => none }
+        | _ => none,
+      tdest := match x.getObjVal? "tdest" with
+        | .ok (.str t) => t
+        | _ => "",
+      tsub := match x.getObjVal? "tsub" with
+        | .ok (.bool b) => b
+        | _ => false,
+      parent := match x.getObjVal? "parent" with
+        | .ok p => parentOf p
+        | _ => .gone }
   | _ => []
 
 def compList (j : Json) : List (String × Bool) :=
@@ -130,6 +155,8 @@ def step (j : Json) : Json :=
         .arr (e.2.map fun kv => Json.arr #[.str kv.1, valToJson kv.2]).toArray]).toArray),
       ("ready", .bool (decide (SourcesReady links [] comps))),
       ("applied_end", .arr (r.applied.map fun i => Json.num (JsonNumber.fromNat i)).toArray)]
+  | "slots" =>
+    Json.mkObj [("slots", .arr ((flinkList j).map fun l => strArr (targetSlots l)).toArray)]
   | _ => Json.mkObj [("bad-op", .str op)]
 
 partial def loop (h : IO.FS.Stream) (out : IO.FS.Stream) : IO Unit := do
